@@ -296,15 +296,16 @@ class Projector:
             proxy_names[pb.uuid] = "P:" + ",".join(names) if names else "P:"
 
         def node_desc(n):
+            """[kind, section, pos, size, names]; names = symbols on a proxy."""
             if isinstance(n, gtirb.ProxyBlock):
+                names = sorted(base_name(s.name) for s in refs.get(n.uuid, []))
                 if n.uuid in proxy_names:
-                    return ["proxy", proxy_names[n.uuid], 0, 0]
-                names = sorted(s.name for s in refs.get(n.uuid, []))
-                return ["stale_proxy", ",".join(names), 0, 0]
+                    return ["proxy", proxy_names[n.uuid], 0, 0, names]
+                return ["stale_proxy", ",".join(names), 0, 0, names]
             if n.uuid in blkpos:
                 s, p, sz = blkpos[n.uuid]
-                return ["blk", s, p, sz]
-            return ["stale", "", 0, 0]
+                return ["blk", s, p, sz, []]
+            return ["stale", "", 0, 0, []]
 
         edges = []
         for e in m.ir.cfg:
@@ -377,7 +378,114 @@ class Projector:
         ep = m.entry_point
         st = {
             "secs": out_secs, "syms": syms, "edges": edges, "fns": fns,
-            "entry": node_desc(ep) if ep is not None else ["none", "", 0, 0],
+            "entry": node_desc(ep) if ep is not None else ["none", "", 0, 0, []],
             "nproxies": len(m.proxies),
         }
         return st
+
+
+def _node_in_module(n, m: gtirb.Module) -> bool:
+    if isinstance(n, gtirb.ProxyBlock):
+        return n in m.proxies
+    if isinstance(n, gtirb.Symbol):
+        return n.module is m and n in m.symbols
+    if isinstance(n, gtirb.ByteBlock):
+        return n.module is m and n.byte_interval is not None and n in n.byte_interval.blocks
+    if isinstance(n, gtirb.ByteInterval):
+        return n.module is m
+    if isinstance(n, gtirb.Section):
+        return n.module is m
+    if isinstance(n, gtirb.Module):
+        return n is m
+    return True
+
+
+def closure_report(m: gtirb.Module) -> list:
+    """For every aux-data table: how many node references point outside the
+    module (stale blocks / symbols / proxies / unknown UUIDs)."""
+    import uuid as _uuid
+
+    out = []
+    ir = m.ir
+
+    def walk(v, acc):
+        if isinstance(v, gtirb.Node):
+            acc[0] += 1
+            if not _node_in_module(v, m):
+                acc[1] += 1
+        elif isinstance(v, gtirb.Offset):
+            walk(v.element_id, acc)
+        elif isinstance(v, _uuid.UUID):
+            if v != _auxdata.NULL_UUID and v.int != 0:
+                n = ir.get_by_uuid(v) if ir is not None else None
+                if n is not None:
+                    acc[0] += 1
+                    if not _node_in_module(n, m):
+                        acc[1] += 1
+        elif isinstance(v, dict) or hasattr(v, "items"):
+            for k, x in v.items():
+                walk(k, acc)
+                walk(x, acc)
+        elif isinstance(v, (list, tuple, set, frozenset)):
+            for x in v:
+                walk(x, acc)
+
+    for name in sorted(m.aux_data):
+        acc = [0, 0]
+        try:
+            walk(m.aux_data[name].data, acc)
+        except Exception:
+            acc[1] += 1
+        out.append({"t": name, "refs": acc[0], "stale": acc[1]})
+    return out
+
+
+def canonical(st: dict) -> dict:
+    """Projection without block ids / addresses (for equality across reload)."""
+    import copy
+
+    c = copy.deepcopy(st)
+    for sec in c["secs"]:
+        for b in sec["blocks"]:
+            b.pop("u", None)
+            b.pop("addr", None)
+    c.pop("whole", None)
+    return c
+
+
+def whole_ir_report(m: gtirb.Module, orig_cfg=None) -> dict:
+    """Observer facts for the whole-IR validator (C05): aux-data closure,
+    addresses, protobuf round trip (done here, judged in TLA+)."""
+    import hashlib
+    import io
+    import json as _json
+
+    rep = {"aux": closure_report(m)}
+    rep["noaddr"] = sum(1 for b in m.byte_blocks if b.address is None)
+    rep["cfg_same_obj"] = (orig_cfg is None) or (m.ir.cfg is orig_cfg)
+    rep["cfg_type"] = type(m.ir.cfg).__name__
+    rep["proxies_in_cfg_not_in_module"] = sum(
+        1 for e in m.ir.cfg for n in (e.source, e.target)
+        if isinstance(n, gtirb.ProxyBlock) and n not in m.proxies)
+    rep["sym_proxy_not_in_module"] = sum(
+        1 for s in m.symbols
+        if isinstance(s._payload, gtirb.ProxyBlock) and s._payload not in m.proxies)
+    before = canonical(Projector(m).project())
+    h1 = hashlib.sha1(_json.dumps(before, sort_keys=True).encode()).hexdigest()
+    ok, h2, err = True, "", ""
+    try:
+        buf = io.BytesIO()
+        m.ir.save_protobuf_file(buf)
+        buf.seek(0)
+        ir2 = gtirb.IR.load_protobuf_file(buf)
+        m2 = next(x for x in ir2.modules if x.name == m.name)
+        after = canonical(Projector(m2).project())
+        h2 = hashlib.sha1(_json.dumps(after, sort_keys=True).encode()).hexdigest()
+    except Exception as e:  # observed
+        ok = False
+        err = type(e).__name__
+    rep["ser_ok"] = ok
+    rep["ser_err"] = err
+    rep["h1"] = h1
+    rep["h2"] = h2
+    return rep
